@@ -46,6 +46,9 @@ type pipe struct {
 	err     error
 	waiting int
 	reads   int
+	// chunk > 0: a Read returns at most chunk bytes (re-segmentation of the byte stream: the bytes are the same,
+	// only the boundaries at which the receiver sees them differ)
+	chunk int
 }
 
 func newPipe() *pipe {
@@ -84,6 +87,9 @@ func (p *pipe) read(b []byte) (int, error) {
 			return 0, p.err
 		}
 		return 0, io.EOF
+	}
+	if p.chunk > 0 && len(b) > p.chunk {
+		b = b[:p.chunk]
 	}
 	n := copy(b, p.buf)
 	p.buf = p.buf[n:]
@@ -323,6 +329,14 @@ func (w *Wire) Inject(d Dir, raw []byte) {
 	w.Passed = append(w.Passed, Msg{Dir: d, Idx: -1, Data: append([]byte(nil), raw...)})
 	w.mu.Unlock()
 	w.peerPipe(d).put(raw)
+}
+
+// SetReadChunk makes every Read of the receiver of direction d return at most n bytes (0 = unlimited).
+func (w *Wire) SetReadChunk(d Dir, n int) {
+	p := w.peerPipe(d)
+	p.mu.Lock()
+	p.chunk = n
+	p.mu.Unlock()
 }
 
 // Break makes the connection fail with an I/O error in both directions.
